@@ -8,6 +8,7 @@ import Bmc.Proofs.GenEnc.ChassisControlReq
 import Bmc.Proofs.GenEnc.CloseSessionReq
 import Bmc.Proofs.GenEnc.GetChannelAuthenticationCapabilitiesReq
 import Bmc.Proofs.GenEnc.GetChannelCipherSuitesReq
+import Bmc.Proofs.GenEnc.GetSDRReq
 import Bmc.Proofs.GenEnc.GetSessionInfoReq
 import Bmc.Proofs.GenEnc.SetSessionPrivilegeLevelReq
 import Bmc.Proofs.GenEnc.OpenSessionReq
@@ -58,6 +59,7 @@ import Bmc.Proofs.GenEnc.V2Session
 #print axioms Bmc.Proofs.GenEnc.CloseSessionReq_enc_eq
 #print axioms Bmc.Proofs.GenEnc.GetChannelAuthenticationCapabilitiesReq_enc_eq
 #print axioms Bmc.Proofs.GenEnc.GetChannelCipherSuitesReq_enc_eq
+#print axioms Bmc.Proofs.GenEnc.GetSDRReq_enc_eq
 #print axioms Bmc.Proofs.GenEnc.GetSessionInfoReq_enc_eq
 #print axioms Bmc.Proofs.GenEnc.SetSessionPrivilegeLevelReq_enc_eq
 #print axioms Bmc.Proofs.GenEnc.OpenSessionReq_enc_eq_inner
